@@ -94,6 +94,7 @@ class Stats:
         self.violations: List[dict] = []
         self.violation_count = 0
         self.violation_sigs: Counter = Counter()
+        self.stored_per_sig: Counter = Counter()
         self.audit: List[tuple] = []  # (cfg_index, choices, digest)
         self.samples: List[dict] = []
         self.bound_pruned = 0
@@ -107,7 +108,13 @@ class Stats:
         self.outcomes.update(o.outcomes)
         self.digests |= o.digests
         for v in o.violations:
-            if len(self.violations) < 200:
+            keep = False
+            for viol in v["obs"].get("violations") or []:
+                k = json.dumps(viol.get("sig"), sort_keys=True)
+                if self.stored_per_sig[k] < PER_SIG_KEEP:
+                    self.stored_per_sig[k] += 1
+                    keep = True
+            if keep:
                 self.violations.append(v)
         self.violation_count += o.violation_count
         self.violation_sigs.update(o.violation_sigs)
@@ -124,6 +131,7 @@ class Stats:
 
 
 AUDIT_MOD = 257  # kept for API compatibility (unused)
+PER_SIG_KEEP = 4  # violating executions stored per distinct signature (every signature is kept)
 AUDIT_KEEP = 300  # executions re-run for the determinism audit (those with the smallest digests)
 
 
@@ -158,9 +166,14 @@ def _account(stats: Stats, cfg_index, cfg, ctl: Ctl, obs: dict, new_from: int, a
     viols = obs.get("violations") or []
     if viols:
         stats.violation_count += 1
+        keep = False
         for v in viols:
-            stats.violation_sigs[json.dumps(v.get("sig"), sort_keys=True)] += 1
-        if len(stats.violations) < 200:
+            k = json.dumps(v.get("sig"), sort_keys=True)
+            stats.violation_sigs[k] += 1
+            if stats.stored_per_sig[k] < PER_SIG_KEEP:
+                stats.stored_per_sig[k] += 1
+                keep = True
+        if keep:
             stats.violations.append(
                 {"cfg_index": cfg_index, "cfg": cfg, "choices": ctl.choices, "obs": obs, "digest": d}
             )
